@@ -143,7 +143,11 @@ CHECKS = {
                 "stderr has no panic text, listtowers answers and the next notification is answered. Each client process ends with the retry-path variant: the tower is down when "
                 "the revocation arrives, the retrier idles, the tower comes back and acknowledges the retried appointment with a signature by another key => misbehaving + proof; "
                 "then the client is killed and restarted on the same data directory: zero requests may reach that tower (at start-up or on a new revocation) and it is still "
-                "shown as misbehaving. distinct = distinct (endpoint, reply kind).",
+                "shown as misbehaving. Every second misbehaviour case goes on with the user registering again with the proven-misbehaving tower (valid, extending receipt) and two more "
+                "revocations: no appointment request may reach that tower and the proof must stay on disk. Every third client process also gets two notifications written back to back "
+                "(two channels revoking together) for a tower that answers both 300 ms late with a signature by another key: both hooks answered, no panic text, tower shown "
+                "misbehaving, proof on disk, next notification answered. The retry-path verdict is decided on the tower's log (was the wrongly signed reply served?), not on the clock. "
+                "distinct = distinct (endpoint, reply kind).",
         "assumptions": ["6 replies per client process, each against a fresh tower that is abandoned afterwards", "the retry path is exercised by C05/C13 with the same reply kinds"],
     },
     "C06": {
